@@ -23,7 +23,10 @@ fn gc2gc_matches_the_definition() {
     kani::cover!(true);
 }
 
-fn powf_minus_one(x: f64, y: f64) -> f64 { if y == -1.0 { 1.0 / x } else { kani::any() } }
+/// powf on the few exact points the harnesses need (libm is not modelled by CBMC)
+fn powf_minus_one(x: f64, y: f64) -> f64 {
+    if y == -1.0 { 1.0 / x } else if y == -2.0 { 1.0 / (x * x) } else if x == 0.25 && y == -0.5 { 2.0 } else { kani::any() }
+}
 
 #[kani::proof]
 #[kani::unwind(8)]
@@ -36,5 +39,12 @@ fn gnorm_ignorm_match_the_definition() {
     // inverse: K = c_0^gamma = 2;  c'_0 = (K - 1)/gamma = -1, c'_i = c_i K
     let back = n.ignorm();
     assert!(back.len() == 3 && back[0] == -1.0 && back[1] == 2.0 && back[2] == 4.0);
+    // gamma = -1/2 (stage 2), where 1/gamma and gamma differ: K = 1 + gamma c_0 = 2; c'_0 = K^(1/gamma) = 2^-2, c'_i = c_i / K
+    let c2 = mgc(&[-2.0, 2.0, 4.0], -0.5);
+    let n2 = c2.gnorm();
+    assert!(n2.len() == 3 && n2[0] == 0.25 && n2[1] == 1.0 && n2[2] == 2.0);
+    // inverse: K = c_0^gamma = 0.25^(-1/2) = 2; c'_0 = (K - 1)/gamma = -2, c'_i = c_i K
+    let back2 = n2.ignorm();
+    assert!(back2.len() == 3 && back2[0] == -2.0 && back2[1] == 2.0 && back2[2] == 4.0);
     kani::cover!(true);
 }
